@@ -355,3 +355,24 @@ func H_C06_adjacent_strings() {
 	vAssert("content-parser-same-values", vEqObj(ops[0].Operands[0], wantObj))
 	vReach("end")
 }
+
+// H_C06_inline_image_data_is_not_tokenised: the sample data of an inline image (between ID and EI) are raw bytes, not
+// operands or operators; grouping before and after the image is preserved.
+//
+//symgo:harness prop=C06 kernel=K3b-inline-image
+//symgo:desc content stream "q BI /W 2 /H 1 /BPC 8 /CS /G ID " + 2 fully symbolic data bytes + " EI (x) Tj Q": Parse succeeds and returns exactly q, BI, ID (with the eight dictionary operands /W 2 /H 1 /BPC 8 /CS /G), EI, Tj["x"], Q - whatever the data bytes are (parentheses, angle brackets, letters, non-ASCII)
+func H_C06_inline_image_data_is_not_tokenised() {
+	d := vAnyBytes(2)
+	doc := append([]byte("q BI /W 2 /H 1 /BPC 8 /CS /G ID "), d...)
+	doc = append(doc, " EI (x) Tj Q"...)
+	ops, err := NewParser(doc).Parse()
+	vAssert("no-error", err == nil)
+	want := []string{"q", "BI", "ID", "EI", "Tj", "Q"}
+	vAssert("operator-count", len(ops) == len(want))
+	for i := range want {
+		vAssert("operator", i < len(ops) && ops[i].Operator == want[i])
+	}
+	vAssert("image-dictionary-operands", len(ops) == len(want) && len(ops[2].Operands) == 8 && vEqObj(ops[2].Operands[0], core.Name("W")) && vEqObj(ops[2].Operands[1], core.Int(2)))
+	vAssert("text-after-image", len(ops) == len(want) && len(ops[4].Operands) == 1 && vEqObj(ops[4].Operands[0], core.String("x")))
+	vReach("end")
+}
